@@ -278,6 +278,11 @@ def isArgOptionalKind : Ty → Bool
 
 def isMapVal : Val → Bool | .map (_ :: _) => true | _ => false
 
+/-- `self.n = n` when there is no default, else `self.n = n if n is not None else <default>` -/
+def orStmt (n : String) : Option PyE → PyStmt
+  | none => .assignParam n
+  | some e => .assignOr n e
+
 /-- one field of `generateInitMethod`: parameter (if any) and assignment -/
 def initField (cfg : Cfg) (ss : Schemas) (cur : String) (f : Field) : Option PyParam × PyStmt :=
   let n := fmtIdent cfg f.name
@@ -291,7 +296,7 @@ def initField (cfg : Cfg) (ss : Schemas) (cur : String) (f : Field) : Option PyP
   | ty =>
     if isArgOptionalKind ty then
       (some { name := n, ann := if m.nullable then t else .sub (.attr (pkgAlias cur "typing") "Optional") [t], dflt := .name "None" },
-       match d with | none => .assignParam n | some e => .assignOr n e)
+       orStmt n d)
     else (some { name := n, ann := t, dflt := d.getD (.name "None") }, .assignParam n)
 
 def initParams (cfg : Cfg) (ss : Schemas) (cur : String) : List Field → List PyParam
